@@ -365,6 +365,7 @@ func c16Run(c *engine.Ctx) {
 			}
 		}
 		c.DistinctN(1)
+		c.Outcome(fmt.Sprintf("stream: document of %d events", len(n.events(nil, true))))
 	}
 	c.Sample(map[string]any{"document": docs[len(docs)/2].text(" "), "checked": "--stream events = reference tostream in document order; fromstream rebuilds; tostream up to key order; --stream -s"})
 
